@@ -219,6 +219,14 @@ func verifDir() string {
 	return "/verif"
 }
 
+// outDir: where evidence/ and replays/ go (VERIF_OUT overrides; used by the self-tests).
+func outDir() string {
+	if d := os.Getenv("VERIF_OUT"); d != "" {
+		return d
+	}
+	return verifDir()
+}
+
 func loadKnown(property string) []Known {
 	f, err := os.Open(filepath.Join(verifDir(), "known_findings.txt"))
 	if err != nil {
@@ -267,7 +275,7 @@ type Evidence struct {
 }
 
 func writeEvidence(e *Evidence) {
-	dir := filepath.Join(verifDir(), "evidence")
+	dir := filepath.Join(outDir(), "evidence")
 	os.MkdirAll(dir, 0o755)
 	b, _ := json.MarshalIndent(e, "", " ")
 	tmp := filepath.Join(dir, e.PropertyID+".json.tmp")
@@ -282,7 +290,7 @@ func writeEvidence(e *Evidence) {
 }
 
 func writeReplay(h History, name string) string {
-	dir := filepath.Join(verifDir(), "replays")
+	dir := filepath.Join(outDir(), "replays")
 	os.MkdirAll(dir, 0o755)
 	p := filepath.Join(dir, name)
 	b, _ := json.MarshalIndent(h, "", " ")
